@@ -20,6 +20,9 @@ func pathUniverse() []fieldpath.Path {
 		{a, k1, k1}, {b, i0, a}, {peField("c")}, {peField("c"), peField("d")}, {peField("c"), peField("d"), peField("e")},
 		{a, peValue(float64(1))}, {a, peValue(int64(1))}, {a, peKey("name", int64(1))}, {a, peKey("name", float64(1))},
 		{b, peValue(1.5)}, {b, peValue(0.5)}, {a, peKey("name", 1.5)},
+		// integers and indices more than 2^63 apart
+		{b, peIndex(1 << 62)}, {b, peIndex(-(1 << 62))}, {b, peValue(int64(6000000000000000000))}, {b, peValue(int64(-6000000000000000000))},
+		{a, peKey("name", int64(6000000000000000000))}, {a, peKey("name", int64(-6000000000000000000))},
 	}
 }
 
